@@ -99,26 +99,28 @@ Section Pull2.
     | None => emits2 r [XSetBlob k emp; XSetBlob k k]
     end.
 
-  Fixpoint do_chunks (r : run2) (h : N) (cs : list chunk) (i : nat) (failed : bool) : run2 * bool :=
+  (** [fresh]: the scratch file held nothing when Chunked opened it (Chunker.Fresh): then no record counts — the
+      blob the recorded chunks went into may have been removed since — and every chunk is fetched *)
+  Fixpoint do_chunks (fresh : bool) (r : run2) (h : N) (cs : list chunk) (i : nat) (failed : bool) : run2 * bool :=
     match cs with
     | [] => (r, failed)
     | c :: t =>
-        if has_rec (rs2 r) (ck_key c) then do_chunks r h t (S i) failed
-        else if ck_ok c then do_chunks (put_blob (emit2 r (XPut h i)) (ck_key c)) h t (S i) failed
-        else do_chunks r h t (S i) true
+        if negb fresh && has_rec (rs2 r) (ck_key c) then do_chunks fresh r h t (S i) failed
+        else if ck_ok c then do_chunks fresh (put_blob (emit2 r (XPut h i)) (ck_key c)) h t (S i) failed
+        else do_chunks fresh r h t (S i) true
     end.
 
   (** Chunker.Commit: the scratch file is the layer iff every chunk is in it *)
   Definition covers (w : list nat) (n : nat) : bool := negb (n =? 0)%nat && forallb (fun i => mem_nat i w) (seq 0 n).
 
   (** the chunks of an empty layer (one chunk, "bytes=0--1"): nothing is written, only the record *)
-  Fixpoint do_chunks0 (r : run2) (cs : list chunk) (failed : bool) : run2 * bool :=
+  Fixpoint do_chunks0 (fresh : bool) (r : run2) (cs : list chunk) (failed : bool) : run2 * bool :=
     match cs with
     | [] => (r, failed)
     | c :: t =>
-        if has_rec (rs2 r) (ck_key c) then do_chunks0 r t failed
-        else if ck_ok c then do_chunks0 (put_blob r (ck_key c)) t failed
-        else do_chunks0 r t true
+        if negb fresh && has_rec (rs2 r) (ck_key c) then do_chunks0 fresh r t failed
+        else if ck_ok c then do_chunks0 fresh (put_blob r (ck_key c)) t failed
+        else do_chunks0 fresh r t true
     end.
 
   (** a layer of length 0: Get never reports it (an empty file counts as absent); Chunked takes an empty file under
@@ -126,7 +128,8 @@ Section Pull2.
   Definition do_layer0 (sv : served2) (r : run2) (l : layer) : run2 * bool :=
     let h := dhex (ldg l) in
     let there := match bget h (base (rs2 r)) with Some c => size_of c =? 0 | None => false end in
-    let (r1, failed) := do_chunks0 r (chunks_of sv h) false in
+    (* an empty file under the blob's name: a pre-validated Chunker, never fresh; else the scratch file is empty: fresh *)
+    let (r1, failed) := do_chunks0 (negb there) r (chunks_of sv h) false in
     if failed then (r1, false)
     else if there then (r1, true)
     else (emit2 r1 (XCommit h), true).
@@ -136,7 +139,8 @@ Section Pull2.
     if lsz l =? 0 then do_layer0 sv r l
     else if has_blob (rs2 r) h (lsz l) then (r, true)
     else
-      let (r1, failed) := do_chunks r h (chunks_of sv h) 0%nat false in
+      let fresh := match written (rs2 r) h with [] => true | _ => false end in
+      let (r1, failed) := do_chunks fresh r h (chunks_of sv h) 0%nat false in
       if failed then (r1, false)
       else if covers (written (rs2 r1) h) (length (chunks_of sv h)) then (emit2 r1 (XCommit h), true)
       else (r1, false).
